@@ -121,7 +121,6 @@ class MediaList(cssutils.util._NewListBase):
         # must be at least one value!
         if not atleastone:
             ok = False
-            self._wellformed = ok
             self._log.error('MediaQuery: No content.', error=xml.dom.SyntaxErr)
 
         self._wellformed = ok
